@@ -528,8 +528,10 @@ class ElementList(MutableSequence):
         del self.list[index]
 
     def __setitem__(self, index, value):
-        child_name = self.list[index].name
-        self.set(child_name, value, index)
+        child = self.list[index]
+        # ElementList.set needs the position of the child among the ones having the same name
+        by_name_index = self.indexes[child.name].index(child)
+        self.set(child.name, value, by_name_index)
 
     def __str__(self):
         return str(self.list)
